@@ -71,6 +71,8 @@ End NRes.
    all edge statements first); a cancellation cannot come from the interpreter when there is no budget *)
 Definition okerr (e : exec_error) : Prop :=
   match root_cause e with EUndefinedEdge | ECancelled _ => False | _ => True end.
+(* the name used in the property theorem *)
+Definition order_independent_error : exec_error -> Prop := okerr.
 Lemma root_cause_add_context c e : root_cause (add_context c e) = root_cause e.
 Proof. destruct e; try reflexivity. destruct c0; reflexivity. Qed.
 Lemma okerr_add_context c e : okerr (add_context c e) -> okerr e.
